@@ -342,6 +342,14 @@ def evaluate(ctx, spec, live, rng, tag=None):
         guard(T.levels, n.ref)
         ctx.stratum('levels of an inner constituent')
     guard(R.treeoutput.compute_export_numbering, live)
+    # the numbering leaves node numbers on the constituents: the navigation
+    # functions are not to be impressed by them
+    for n in nodes[:40]:
+        if n.children:
+            guard(T.children, n.ref)
+        guard(T.left_sibling, n.ref)
+        guard(T.right_sibling, n.ref)
+    ctx.stratum('navigation after the export numbering')
     ncons = len([n for n in nodes if n.children])
     ntok = len(m.toks())
     ctx.case(model.canon(m, 'p'), nontrivial=ntok >= 3 and ncons >= 2)
